@@ -192,6 +192,22 @@ def _full_keys(fn: ast.FunctionDef, what: str) -> list[str]:
     return keys
 
 
+def _from_json_shape(fn: ast.FunctionDef) -> None:
+    """SerializationMixin.from_json must be exactly: set the default object_hook, json.loads, isinstance test, return --
+    the model (Model/C08_entry.v from_json_text) has no other step, in particular no pass over the decoded tree."""
+    body = [s for s in fn.body if not (isinstance(s, ast.Expr) and isinstance(s.value, ast.Constant))]     # docstring
+    body = [s for s in body if not isinstance(s, ast.ImportFrom)]
+    want = ["kwargs.setdefault('object_hook', json_decoder)", "obj = json.loads(json_string, **kwargs)"]
+    got = [ast.unparse(s) for s in body]
+    ok = (len(body) == 4 and got[:2] == want
+          and isinstance(body[2], ast.If) and ast.unparse(body[2].test) == "not isinstance(obj, cls)"
+          and len(body[2].body) == 1 and isinstance(body[2].body[0], ast.Raise) and not body[2].orelse
+          and ast.unparse(body[2].body[0].exc).startswith("TypeError(")
+          and got[3] == "return obj")
+    if not ok:
+        raise TranslatorError(f"SerializationMixin.from_json is not `setdefault object_hook; json.loads; isinstance; return`: {got}")
+
+
 def translate_text_tables() -> Path:
     """coq/Gen/C08_text_tables.v: what the text-level and full-mode models take from CPython (json, str) and from
     mixins.py / models.py / cli.py, regenerated on every run; the proofs re-establish by computation that the model's
@@ -214,6 +230,7 @@ def translate_text_tables() -> Path:
     calls = _call_keywords(as_json, "dumps")
     if calls != [["cls", "full", "**"]]:
         raise TranslatorError(f"SerializationMixin.as_json: json.dumps keywords {calls}, the text-level model assumes cls, full, **kwargs (default separators, ensure_ascii)")
+    _from_json_shape(_method(mixins, "SerializationMixin", "from_json"))
     models = ast.parse((src / "models.py").read_text())
     obj_keys = _full_keys(_method(models, "Object", "as_dict"), "Object.as_dict")
     alias_keys = _full_keys(_method(models, "Alias", "as_dict"), "Alias.as_dict")
